@@ -159,7 +159,8 @@ class InputDataStorage:
                     current_sample_name = self.experiment_prefix + str(current_index)
                 if current_sample_name in experiment_names:
                     new_sample_name = self.experiment_prefix + str(current_index)
-                    if current_sample_name == new_sample_name:
+                    if current_sample_name == new_sample_name or new_sample_name in experiment_names:
+                        # the replacement name must not belong to another experiment either
                         logger.critical("Change experiment name %s and rerun IsoQuant" % current_sample_name)
                         exit(-1)
                     logger.warning("Duplicate folder prefix %s, will change to %s" %
@@ -225,7 +226,8 @@ class InputDataStorage:
                 current_sample_name = sample['name']
             if current_sample_name in experiment_names:
                     new_sample_name = self.experiment_prefix + str(current_index)
-                    if current_sample_name == new_sample_name:
+                    if current_sample_name == new_sample_name or new_sample_name in experiment_names:
+                        # the replacement name must not belong to another experiment either
                         logger.critical("Change experiment name %s and rerun IsoQuant" % current_sample_name)
                         exit(-1)
                     logger.warning("Duplicate folder prefix %s, will change to %s" %
